@@ -125,6 +125,7 @@ func (c *Ctx) Violationf(key string, detail interface{}, format string, args ...
 	if len(c.res.Violations) >= 8 {
 		return // enough witnesses for one case
 	}
+	detail = jsonSafe(detail)
 	c.res.Violations = append(c.res.Violations, Violation{Key: key, Msg: fmt.Sprintf(format, args...), Detail: detail})
 }
 
@@ -154,7 +155,7 @@ func (c *Ctx) Nontrivial(parts ...interface{}) {
 func (c *Ctx) Sample(v interface{}) {
 	c.mu.Lock()
 	if c.res.Sample == nil {
-		c.res.Sample = v
+		c.res.Sample = jsonSafe(v)
 	}
 	c.mu.Unlock()
 }
@@ -229,4 +230,15 @@ func JSON(v interface{}) string {
 		return fmt.Sprintf("%+v", v)
 	}
 	return string(b)
+}
+
+// jsonSafe makes sure v can be marshalled (NaN/Inf floats cannot): otherwise it is rendered as text.
+func jsonSafe(v interface{}) interface{} {
+	if v == nil {
+		return nil
+	}
+	if _, err := json.Marshal(v); err != nil {
+		return fmt.Sprintf("%+v", v)
+	}
+	return v
 }
